@@ -502,6 +502,8 @@ class Gen:
         self.S, self.R = schema, rng
         self.wn, self.wd = wild_num, wild_den
         self.wild_used = []
+        self.target_core = set()
+        self.target = None        # set of type names: optional fields, CHOICE and open-type alternatives leading there are taken
 
     def wild(self, what):
         if self.wn and self.R.chance(self.wn, self.wd):
@@ -565,6 +567,8 @@ class Gen:
                     return tt['kind'] == 'struct' and not tt.get('fields')
                 cands = [i for i in range(1, hi + 1) if not empty(i)]
                 if not cands: raise NoValue()
+                if self.target and depth < 14:
+                    cands = [i for i in cands if fs[i]['type'] in self.target] or cands
                 pres = R.choice(cands)
                 v = [str(pres)] + [None] * nalt
                 v[pres] = self.gen(fs[pres]['type'], fs[pres]['p'], depth + 1)
@@ -573,7 +577,8 @@ class Gen:
             out = []
             for i, f in enumerate(fs):
                 fp = f['p']
-                if fp['optional'] and (R.chance(1, 2) or depth > 7):
+                wanted = self.target is not None and depth < 14 and (f['type'] in self.target or tname in self.target_core)
+                if fp['optional'] and not wanted and (R.chance(1, 2) or depth > 7):
                     out.append(None); continue
                 try:
                     out.append(self.gen_field(fs, i, fp, f, out, depth))
@@ -594,6 +599,8 @@ class Gen:
             alts = [(j, vfs[j]['p']['refValue']) for j in range(1, len(vfs))]
             if not alts: raise NoValue()
             order = R.shuffle(alts)
+            if self.target and depth < 14:
+                order = sorted(order, key=lambda a: vfs[a[0]]['type'] not in self.target)
             for j, rv in order:
                 try:
                     inner = self.gen(vfs[j]['type'], vfs[j]['p'], depth + 1)
@@ -699,7 +706,33 @@ def remap(src, dst, tname, v):
     return out
 
 
-def golden_cases(S, rng, per_msg, per_root):
+def differing_types(Gs, S):
+    """struct types whose fields (names in order, tags, types) differ between the frozen and the current schema"""
+    out = set()
+    for tn, tg in Gs.types.items():
+        tc = S.types.get(tn)
+        if tg['kind'] != 'struct': continue
+        sig = lambda t: [(f['name'], f['tag'], f['type']) for f in (t.get('fields') or [])]
+        if tc is None or tc['kind'] != 'struct' or sig(tc) != sig(tg): out.add(tn)
+    return out
+
+
+def reaching(Gs, core):
+    """type names from which a type of [core] can be reached (over the frozen schema)"""
+    kids = {}
+    for tn, t in Gs.types.items():
+        kids[tn] = [t['elem']] if t['kind'] in ('ptr', 'slice') else [f['type'] for f in (t.get('fields') or [])] if t['kind'] == 'struct' else []
+    reach = set(core)
+    changed = True
+    while changed:
+        changed = False
+        for tn, ks in kids.items():
+            if tn not in reach and any(k in reach for k in ks):
+                reach.add(tn); changed = True
+    return reach
+
+
+def golden_cases(S, rng, per_msg, per_root, search=False):
     """(root name, golden root record, value over the frozen types, the same value by name for the current types, canonical hex)"""
     Gs = GoldenSchema.get()
     ref = Ref(Gs)
@@ -727,6 +760,31 @@ def golden_cases(S, rng, per_msg, per_root):
             try: vg = Gen(Gs, rng).gen(r['Type'], parse_tag(r['Params']))
             except NoValue: continue
             add(r['Name'], vg, r['Name'])
+    if search:
+        # the regenerated schema differs from the frozen one: values that CONTAIN the differing types, with every optional
+        # field on the way and inside them present
+        core = differing_types(Gs, S)
+        if core and len(core) < 200:
+            reach = reaching(Gs, core)
+
+            def tgen():
+                g = Gen(Gs, rng); g.target, g.target_core = reach, core
+                return g
+            pdu = Gs.types['ngapType.NGAPPDU']
+            for (cls, j, code, name) in ngap_messages(Gs):
+                mt = Gs.types[Gs.types[pdu['fields'][cls]['type']]['elem']]
+                f = Gs.types[mt['fields'][2]['type']]['fields'][j]
+                if f['type'] not in reach: continue
+                for rep in range(30):
+                    try: vg = gen_pdu_of(tgen(), Gs, cls, j)
+                    except (NoValue, RecursionError): continue
+                    add("NGAPPDU", vg, "%d/%s" % (cls, name))
+            for r in Gs.roots[1:]:
+                if r['Type'] not in reach: continue
+                for rep in range(30):
+                    try: vg = tgen().gen(r['Type'], parse_tag(r['Params']))
+                    except (NoValue, RecursionError): continue
+                    add(r['Name'], vg, r['Name'])
     return out, skipped
 
 
